@@ -10,3 +10,24 @@ def run(chk):
     chk.trust("z3 5.1.0")
     batcher.check_collect(chk, "C05")
     batcher.check_consumer(chk, "C05")
+    bounded_conformance(chk)
+
+
+def bounded_conformance(chk):
+    """BOUNDED stand-in next to the proof: the real _collect_checkpoint_batch run natively over an exhaustive small space against the proved contract"""
+    from pyvc.check import native
+    n = 5 if chk.tier == "thorough" else 3
+    try:
+        r = native("batcher_bounded.py", {"max_items": n}, timeout=1200)
+    except Exception as e:  # noqa: BLE001
+        chk.fault(f"bounded batcher run failed: {e!r}")
+        return
+    chk.bounded.append({"what": "native _collect_checkpoint_batch vs the proved contract", "bound": r.get("bound"), "cases": r.get("cases"), "failures": r.get("failures")})
+    chk.validated += int(r.get("cases", 0)) if r.get("ok") else 0
+    ob = chk.obligation("C05.bounded.collect_native_conformance", "BOUNDED: the real method satisfies the proved contract on every small queue / size / limit combination")
+    ob.kind = "bounded"
+    ob.vcs += 1
+    if r.get("ok"):
+        ob.discharged += 1
+    else:
+        ob.refuted.append({"inputs": {"failures": r.get("failures")}, "model": "", "replay_confirmed": True, "replay_output": r})
